@@ -10,7 +10,7 @@ that count calls, still see it).  Depth-limited, no recursion, callee size bound
 import copy
 
 K = 100000
-MAX_CALLEE_BLOCKS = 120
+MAX_CALLEE_BLOCKS = 24     # helpers larger than this are functions in their own right, with rules of their own
 
 
 def _has_effect(e):
@@ -103,10 +103,12 @@ def _scale_succ(s, fn):
     return fn(s)
 
 
-def inline_raw(raw, statics, depth=2, stack=()):
+def inline_raw(raw, statics, depth=2, stack=(), max_blocks=None):
     """raw: function dict as extracted.  statics: {name: raw dict} of the unit's static functions."""
     if depth <= 0:
         return raw
+    if max_blocks is None:
+        max_blocks = MAX_CALLEE_BLOCKS
     name = raw["fn"]
     blocks = {}
     for b in raw["blocks"]:
@@ -124,10 +126,10 @@ def inline_raw(raw, statics, depth=2, stack=()):
         while k < len(cur["el"]):
             e = cur["el"][k]
             cal = statics.get(e.get("fn")) if isinstance(e, dict) and e.get("k") == "Call" and "x" not in e else None
-            if cal is None or e["fn"] == name or e["fn"] in stack or len(cal["blocks"]) > MAX_CALLEE_BLOCKS or j >= 40:
+            if cal is None or e["fn"] == name or e["fn"] in stack or len(cal["blocks"]) > max_blocks or j >= 40:
                 k += 1
                 continue
-            callee = inline_raw(cal, statics, depth - 1, stack + (name,))
+            callee = inline_raw(cal, statics, depth - 1, stack + (name,), max_blocks)
             j += 1
             changed = True
             args = e.get("args", [])
@@ -191,11 +193,12 @@ def inline_raw(raw, statics, depth=2, stack=()):
     return out
 
 
-def inlined(f, depth=2):
+def inlined(f, depth=2, max_blocks=None):
     """Func -> Func with static helpers of the same unit inlined (cached on the function object)."""
     cache = f.__dict__.setdefault("_inlined", {})
-    if depth in cache:
-        return cache[depth]
+    key = (depth, max_blocks)
+    if key in cache:
+        return cache[key]
     from facts import Func
     unit = f.unit
     statics = {}
@@ -204,9 +207,9 @@ def inlined(f, depth=2):
             statics[g.name] = g._raw
     raw = getattr(f, "_raw", None)
     if raw is None:
-        cache[depth] = f
+        cache[key] = f
         return f
-    new = inline_raw(raw, statics, depth)
+    new = inline_raw(raw, statics, depth, (), max_blocks)
     g = f if new is raw else Func(new, unit)
-    cache[depth] = g
+    cache[key] = g
     return g
